@@ -810,6 +810,132 @@ handle_harness_one! { fam = false;
     }
 }
 
+// the narrowest slice of the same obligation, at quick-tier cost: parser outcome fixed to "packet whose
+// NTS fields fail to decrypt", NTPv4, client passes both lists and the limiter; the mode is any of
+// the seven non-client modes. Ignored, nothing built, and the one statistics entry says Ignore.
+handle_harness_one! { fam = false;
+    fn c15_b_nonclient_decrypt_failure_ignored() {
+        let (mut srv, _cfg) = any_server(0);
+        let ip = any_ip();
+        arm_ghosts(&srv, ip, false);
+        IN_DENY.store(false, Relaxed);
+        IN_ALLOW.store(true, Relaxed);
+        CACHE_RES.store(true, Relaxed);
+        GEN_KIND.store(GEN_DECRYPT_ERR, Relaxed);
+        VERSION.store(4, Relaxed);
+        kani::assume(MODE.load(Relaxed) != 3);
+        let msg = [0x23u8; MSG_MAX];
+        let mut stats = RecStats;
+        let r = srv.handle_inner(ip, NtpTimestamp::from_bits(kani::any()), &msg[..], &mut stats);
+        let ignored = matches!(r, Err(ServerAction::Ignore));
+        core::mem::forget(r);
+        assert!(ignored, "non-client packet: never answered");
+        assert!(BUILT.load(Relaxed) == B_NONE, "non-client packet: no response built");
+        assert!(REG_CALLS.load(Relaxed) == 1 && REG_RESPONSE.load(Relaxed) == S_IGNORE, "registered once, as ignored");
+        kani::cover!(MODE.load(Relaxed) == 4 && DESER_CALLS.load(Relaxed) == 1, "server-mode packet with failing NTS fields reaches the parser");
+        core::mem::forget(srv);
+    }
+}
+
+// ---- further quick-tier slices of the handle-level contract (the complete versions are the
+// thorough-tier harnesses c15_tp_*): handle_inner is called directly, the list / limiter verdicts
+// are FIXED per slice, everything else (configured actions, require_nts, accepted versions, mode,
+// wire version, parser outcome where stated) stays symbolic.
+fn inner_outcome(r: &Result<HandleInnerData<'_>, ServerAction<'_>>) -> (bool, u8) {
+    match r {
+        Err(_) => (false, S_IGNORE),
+        Ok(d) => (true, match d.action {
+            ServerResponse::NTSNak => S_NAK,
+            ServerResponse::Deny => S_DENY,
+            ServerResponse::Ignore => S_IGNORE,
+            ServerResponse::ProvideTime => S_TIME,
+        }),
+    }
+}
+handle_harness_one! { fam = false;
+    // a client on the deny list: Ignore action => nothing at all (not even parsed); Deny action => at
+    // most a DENY kiss, never time; the rate limiter is not consulted; the allow list does not matter
+    fn c15_b_slice_denylisted_client() {
+        let (mut srv, cfg) = any_server(0);
+        let ip = any_ip();
+        arm_ghosts(&srv, ip, false);
+        IN_DENY.store(true, Relaxed);
+        let msg = [0x23u8; MSG_MAX];
+        let mut stats = RecStats;
+        let r = srv.handle_inner(ip, NtpTimestamp::from_bits(kani::any()), &msg[..], &mut stats);
+        let (answered, what) = inner_outcome(&r);
+        core::mem::forget(r);
+        let b = BUILT.load(Relaxed);
+        if cfg.deny_action == FilterAction::Ignore {
+            assert!(!answered && b == B_NONE && DESER_CALLS.load(Relaxed) == 0, "ignore action: nothing, not even parsed");
+        } else {
+            assert!(b == B_NONE || b == B_DENY || b == B_NTS_DENY, "deny action: at most a DENY kiss");
+            assert!(!answered || what == S_DENY);
+        }
+        assert!(!built_time(), "a deny-listed client never receives time");
+        assert!(CACHE_CALLS.load(Relaxed) == 0, "rate limiter not consulted for listed clients");
+        assert!(!ALLOW_BEFORE_DENY.load(Relaxed) && !FILTER_WRONG_IP.load(Relaxed));
+        kani::cover!(answered && what == S_DENY, "DENY kiss built");
+        kani::cover!(IN_ALLOW.load(Relaxed) && cfg.deny_action == FilterAction::Ignore, "deny list wins over allow list");
+        core::mem::forget(srv);
+    }
+}
+handle_harness_one! { fam = false;
+    // a client that passes both lists but is refused by the limiter gets nothing; registered as rate-limited
+    fn c15_b_slice_rate_limited_client() {
+        let (mut srv, _cfg) = any_server(0);
+        let ip = any_ip();
+        arm_ghosts(&srv, ip, false);
+        IN_DENY.store(false, Relaxed);
+        IN_ALLOW.store(true, Relaxed);
+        CACHE_RES.store(false, Relaxed);
+        let msg = [0x23u8; MSG_MAX];
+        let mut stats = RecStats;
+        let r = srv.handle_inner(ip, NtpTimestamp::from_bits(kani::any()), &msg[..], &mut stats);
+        let (answered, _what) = inner_outcome(&r);
+        core::mem::forget(r);
+        assert!(!answered && BUILT.load(Relaxed) == B_NONE, "rate-limited: no answer");
+        assert!(CACHE_CALLS.load(Relaxed) == 1 && !CACHE_CALL_BEFORE_LISTS_PASSED.load(Relaxed));
+        assert!(REG_CALLS.load(Relaxed) == 1 && REG_RESPONSE.load(Relaxed) == S_IGNORE && REG_REASON.load(Relaxed) == R_RATELIMIT);
+        kani::cover!(true, "reachable");
+        core::mem::forget(srv);
+    }
+}
+handle_harness_one! { fam = false;
+    // a plain client-mode request from a client that passes both lists and the limiter: time iff the
+    // wire version is accepted and NTS is not required; require_nts Ignore => nothing, Deny => DENY;
+    // a non-accepted version is never answered
+    fn c15_b_slice_plain_client_request() {
+        let (mut srv, cfg) = any_server(0);
+        let ip = any_ip();
+        arm_ghosts(&srv, ip, false);
+        IN_DENY.store(false, Relaxed);
+        IN_ALLOW.store(true, Relaxed);
+        CACHE_RES.store(true, Relaxed);
+        GEN_KIND.store(GEN_PLAIN, Relaxed);
+        MODE.store(3, Relaxed);
+        let msg = [0x23u8; MSG_MAX];
+        let mut stats = RecStats;
+        let r = srv.handle_inner(ip, NtpTimestamp::from_bits(kani::any()), &msg[..], &mut stats);
+        let (answered, what) = inner_outcome(&r);
+        core::mem::forget(r);
+        let b = BUILT.load(Relaxed);
+        if !version_accepted(&cfg) {
+            assert!(!answered && b == B_NONE, "non-accepted version: never answered");
+        } else {
+            match cfg.require_nts {
+                None => assert!(answered && what == S_TIME && b == B_TIME && BUILD_CALLS.load(Relaxed) == 1, "eligible request gets time"),
+                Some(FilterAction::Ignore) => assert!(!answered && b == B_NONE, "NTS required (ignore): nothing"),
+                Some(FilterAction::Deny) => assert!(answered && what == S_DENY && b == B_DENY, "NTS required (deny): DENY kiss"),
+            }
+        }
+        assert!(b != B_NTS_TIME && b != B_NTS_NAK && b != B_NTS_DENY, "no NTS answer to a plain request");
+        kani::cover!(answered && what == S_TIME, "time served");
+        kani::cover!(!version_accepted(&cfg), "non-accepted version");
+        core::mem::forget(srv);
+    }
+}
+
 handle_harness! {
     // positive clause: well-formed accepted-version client request passing both lists and the limiter receives time
     fn c15_tp_handle_serves_time_plain() fn c15_tp_handle_serves_time_nts() with fam {
